@@ -132,7 +132,8 @@ func (c *fcConc) next(cl *fcClass) fcTriple {
 			c.lead, c.trl = 1, 40
 		}
 	case "lead32":
-		v ^= 1 << uint(c.rnd.Intn(20))
+		// 32 or more leading zeros (the 5-bit field holds at most 31): exactly 32, 33, or many
+		v ^= uint64(c.pick([]int64{1 << 31, 1 << 30, 1<<31 | 1, 1 << uint(c.rnd.Intn(20))}))
 		c.lead, c.trl = -1, -1
 	case "full64":
 		v ^= 1<<63 | 1
@@ -242,7 +243,7 @@ func (r *fcRun) fullRead(what string, ch chunkenc.Chunk, it chunkenc.Iterator, w
 }
 
 func fcEnc(name string) chunkenc.Encoding {
-	if name == "xor2" {
+	if name == "xor2" || name == "xor2n" {
 		return chunkenc.EncXOR2
 	}
 	return chunkenc.EncXOR
@@ -276,7 +277,11 @@ func (r *fcRun) replay(b []fcStep, seed int64, stretch int, noBytes bool) {
 				reps = stretch // long chunks: the same class again and again (classes are relative)
 			}
 			for k := 0; k < reps; k++ {
-				x := c.next(s.C)
+				cl := *s.C
+				if stretch > 1 && seed%2 == 0 && c.n < 130 && cl.Sc != "none" {
+					cl.Sc = "none" // half of the long chunks get their first start timestamp after sample 127
+				}
+				x := c.next(&cl)
 				app.Append(x.st, x.t, math.Float64frombits(x.v))
 				want = append(want, x)
 				r.stat["appends"]++
